@@ -29,7 +29,7 @@ CLAIM = {
             "(R3.7) the setter keeps the two point slots aligned with the numbers: previous <- current exactly on "
             "num == next+1 (every path), never on a retry (num == next), previous <- None on a jump, current <- "
             "Some(new point) whenever the number grows, next <- num. "
-            "Does not decide the hash arithmetic of the 49-slot store (derive_secret/place_secret).",
+            "(R3.8/R3.9) restart clause: every acknowledged change of the channel's enforcement state is persisted before the success return and every persisted field is restored into the same slot, the restored EnforcementState installed unmodified (same obligations as C11 R11.1 for the channel class and C11 R11.2). Does not decide the hash arithmetic of the 49-slot store (derive_secret/place_secret).",
     "note": "non-permissive policy; rustc MIR; one live object per typed path; secp256k1 from_secret_key by name",
     "technique": "static analysis: MIR who-may-write/call + must-pass-through + guard-scenario entailment + provenance",
 }
@@ -52,6 +52,7 @@ def run(ctx):
     r35(ctx)
     r36(ctx)
     r37(ctx)
+    r_restart(ctx)
 
 
 def r31(ctx):
@@ -505,3 +506,15 @@ def r37(ctx):
            where=f"{b.file}:{b.line}", sample="num > next + 1 => current <- Some(current_point)")
     ctx.ob("R3.7", all(v == "num" for _, _, v in wn) and not any(r in fv.reach(0, cut_nodes={w[0] for w in wn}) for r in rets),
            f"{b.name}/counter", f"next_counterparty_commit_num receives {[v for _, _, v in wn]}", where=f"{b.file}:{b.line}", sample="next <- num")
+
+
+def r_restart(ctx):
+    """the restart clause of the statement ("with a signer restart allowed between any two requests"): the channel's
+    enforcement state the rules above reason about is, at every acknowledged request, the state a restarted signer has.
+    Same obligations as C11 R11.1 (persist-before-acknowledge, channel class) and C11 R11.2 (persist / restore field
+    agreement, restored EnforcementState installed unmodified), evaluated here because this property depends on them."""
+    from rules import C11 as _c11
+    from engine import report as _report
+    v = _report.renamed(ctx, {"R11.1": "R3.8", "R11.2": "R3.9"})
+    _c11.r111(v, classes={"channel"})
+    _c11.r112(v)
